@@ -492,6 +492,18 @@ func evaluate(p *Prog, pd *PropDef, encs []*Enc, lists *CheckLists, tier string,
 			}
 		}
 	}
+	// static side of the region argument (C04/C05): per-execution types are not reachable from shared memory
+	if pd.ID == "C04" || pd.ID == "C05" {
+		for _, ob := range regionObligations(p) {
+			r.generated++
+			r.claimed = append(r.claimed, ob)
+			if ob.Discharged() {
+				r.discharged++
+			} else {
+				r.violations = append(r.violations, ob)
+			}
+		}
+	}
 	if len(stats.Disagree) > 0 {
 		r.toolError = "solver disagreement on: " + strings.Join(stats.Disagree, ", ")
 	}
